@@ -79,3 +79,14 @@ const RefsSpec = `{"openapi":"3.1.0","info":{"title":"t","version":"1"},
   "E":{"description":"e","content":{"application/json":{"schema":{"$ref":"#/components/schemas/Err"}}}}},
  "securitySchemes":{"K":{"$ref":"#/components/securitySchemes/K2"},"K2":{"type":"apiKey","in":"header","name":"X-K"}},
  "pathItems":{"PI":{"get":{"operationId":"b","responses":{"200":{"$ref":"#/components/responses/R"}}}},"PI2":{"post":{"operationId":"hook","requestBody":{"$ref":"#/components/requestBodies/B"},"responses":{"200":{"description":"ok"}}}}}}}`
+
+// RecursiveDefaultsSpec: every operation answers `default` with a structurally identical recursive
+// schema under a different name (the generator compares default responses structurally to fold
+// them into one shared error type).
+const RecursiveDefaultsSpec = `{"openapi":"3.0.3","info":{"title":"t","version":"1"},"paths":{
+"/a":{"get":{"operationId":"a","responses":{"200":{"description":"ok"},"default":{"description":"e","content":{"application/json":{"schema":{"$ref":"#/components/schemas/NodeA"}}}}}}},
+"/b":{"get":{"operationId":"b","responses":{"200":{"description":"ok"},"default":{"description":"e","content":{"application/json":{"schema":{"$ref":"#/components/schemas/NodeB"}}}}}}},
+"/c":{"get":{"operationId":"c","responses":{"200":{"description":"ok"},"default":{"description":"e","content":{"application/json":{"schema":{"type":"object","properties":{"next":{"$ref":"#/components/schemas/NodeA"},"v":{"type":"string"}}}}}}}}}},
+"components":{"schemas":{
+"NodeA":{"type":"object","properties":{"next":{"$ref":"#/components/schemas/NodeA"},"v":{"type":"string"}}},
+"NodeB":{"type":"object","properties":{"next":{"$ref":"#/components/schemas/NodeB"},"v":{"type":"string"}}}}}}`
